@@ -350,3 +350,64 @@ EXTRAS = [lemma_fixed_step_count]
 
 UNDECIDED = ['rounding clause ("up to rounding"): decided only by the bounded float-grid stand-in; reals elsewhere',
              'controller_MPI.run and controller_ParaDiag_nonMPI.run are not under contract in this file']
+
+
+def bounded_float_step_count(tier, seed):
+    """rounding clause (bounded stand-in, real floats, real controller runs with a trivial problem): the number of accepted steps of a
+    fixed-step run is compared with the exact-rational count N* = least N with t0 + N*dt >= Tend - 10 eps.
+      outside the rounding band (|t0 + N*dt - Tend| >= dt/2 for all N)  the counts must agree for every block size;
+      inside the band (Tend = fl(t0 + N*dt))                             disagreements are the recorded known finding."""
+    import numpy as np
+    from fractions import Fraction as Fr
+    from pySDC.implementations.controller_classes.controller_nonMPI import controller_nonMPI
+    from pySDC.implementations.problem_classes.TestEquation_0D import testequation0d
+    from pySDC.implementations.sweeper_classes.generic_implicit import generic_implicit
+    from pySDC.helpers.stats_helper import get_sorted
+
+    eps10 = Fr(10 * np.finfo(float).eps)
+
+    def run(t0, dt, Tend, n):
+        d = dict(problem_class=testequation0d, problem_params=dict(lambdas=np.array([-1.0]), u0=1.0), sweeper_class=generic_implicit,
+                 sweeper_params=dict(num_nodes=1, quad_type='RADAU-RIGHT'), level_params=dict(dt=dt, restol=-1), step_params=dict(maxiter=1))
+        c = controller_nonMPI(num_procs=n, controller_params=dict(logger_level=40, dump_setup=False), description=d)
+        u, stats = c.run(u0=c.MS[0].levels[0].prob.u_exact(0), t0=t0, Tend=Tend)
+        times = sorted(k.time for k in stats if k.type == 'niter')
+        return times
+
+    dts = [0.1, 0.25, 0.3, 1e-2, 1.0 / 3] if tier == 'quick' else [0.1, 0.2, 0.3, 0.25, 0.125, 0.01, 0.05, 1e-3, 0.7, 1.0 / 3]
+    t0s = [0.0, -1.0, 100.0] if tier == 'quick' else [0.0, 1.0, -1.0, 100.0, -1e3]
+    Ns = [1, 3, 10, 33] if tier == 'quick' else [1, 3, 7, 10, 33, 100, 300]
+    outside_bad, inside_bad, cases, tiling_bad = [], [], 0, []
+    for dt in dts:
+        for t0 in t0s:
+            for N in Ns:
+                for frac, inside in ((0.0, True), (-0.5, False), (0.37, False)):
+                    Tend = t0 + (N + frac) * dt
+                    k = 0
+                    while Fr(t0) + k * Fr(dt) < Fr(Tend) - eps10:
+                        k += 1
+                    for n in (1, 2, 3, 4) if tier == 'quick' else (1, 2, 3, 4, 8):
+                        cases += 1
+                        times = run(t0, dt, Tend, n)
+                        got = len(times)
+                        # tiling in floats: every start time is the running float sum; none at or beyond Tend - 10 eps
+                        if any(not (t < Tend - 10 * np.finfo(float).eps) for t in times) or (times and times[0] != t0):
+                            tiling_bad.append((dt, t0, Tend, n))
+                        if got != k:
+                            (inside_bad if inside else outside_bad).append(dict(dt=dt, t0=t0, Tend=Tend, steps_per_block=n, accepted=got, exact=k))
+    obs = [
+        dict(name='bounded:fixed_step_count_outside_the_rounding_band', status='proved' if not outside_bad else 'refuted', backend='native-run', seconds=0.0, kind='bounded', size=0,
+             model=dict(first=outside_bad[:5]) if outside_bad else None, reason='', path=0, counted=False),
+        dict(name='bounded:no_step_starts_at_or_beyond_Tend_and_first_starts_at_t0', status='proved' if not tiling_bad else 'refuted', backend='native-run', seconds=0.0, kind='bounded', size=0,
+             model=dict(first=tiling_bad[:5]) if tiling_bad else None, reason='', path=0, counted=False),
+        dict(name='bounded:fixed_step_count_inside_the_rounding_band', status='proved' if not inside_bad else 'refuted', backend='native-run', seconds=0.0, kind='bounded', size=0,
+             model=dict(count=len(inside_bad), first=inside_bad[:6]) if inside_bad else None, reason='', path=0, counted=False),
+    ]
+    return dict(contract='bounded:controller_nonMPI.run[float step count]', prop='C06', inst={}, label='bounded', kind='bounded', obligations=obs, canaries=[], paths=1, status='ok',
+                bounded=dict(what='accepted-step count of real fixed-step runs vs exact rational count; float tiling', bound=f'dt in {dts}, t0 in {t0s}, N in {Ns}, Tend = t0+(N+{{0,-0.5,0.37}})dt, 1-4(8) steps per block',
+                             cases=cases, failures=len(outside_bad) + len(tiling_bad), inside_band_mismatches=len(inside_bad)))
+
+
+EXTRAS = [lemma_fixed_step_count, bounded_float_step_count]
+UNDECIDED = ['rounding clause ("up to rounding"): decided only by the bounded float-grid stand-in (known finding inside the rounding band); reals elsewhere',
+             'controller_MPI.run and controller_ParaDiag_nonMPI.run are not under contract in this file']
